@@ -36,6 +36,7 @@ func c04Scenarios(thorough bool) []c04Scenario {
 		{Name: "2-cycle+tail", Files: []*sFile{one("f1", "a", "a.b", "1111"), one("f2", "a.b", "a", "2222"), one("f3", "xa", "a", "3333")}},
 		{Name: "logged-1min", Files: []*sFile{one("f2", "a.b", "a", "2222"), one("f3", "xa", "a.b", "3333")}, Prelog: map[string]time.Duration{"a": time.Minute}},
 		{Name: "logged-25h-substring", Files: []*sFile{one("f2", "a.b", "a", "2222")}, Prelog: map[string]time.Duration{"xa": time.Minute, "a.b.c": time.Minute, "a": 25 * time.Hour}},
+		{Name: "logged-4d", Files: []*sFile{one("f2", "a.b", "a", "2222")}, Prelog: map[string]time.Duration{"a": 4 * 24 * time.Hour}},
 		{Name: "only-superstrings-logged", Files: []*sFile{one("f2", "a.b", "a", "2222")}, Prelog: map[string]time.Duration{"xa": time.Minute, "a.b": 25 * time.Hour, "d/a": time.Minute}},
 	}
 	if thorough {
@@ -245,12 +246,25 @@ func c04Prelog(w *rw, sc c04Scenario) {
 }
 
 func TestC04(t *testing.T) {
+	runC04(t, "C04", "stage predecessor histories (E-HIST)", func(string) bool { return true })
+}
+
+// TestC03Hold: the receiver half of C03 - a validated file held for its predecessor does not
+// stay in staging once the predecessor is delivered (in this run or, according to the
+// receive log, an earlier one, however long ago); same machinery and oracle as C04.
+func TestC03Hold(t *testing.T) {
+	runC04(t, "C03", "held files are released (E-HIST on the stage)", func(name string) bool {
+		return strings.HasPrefix(name, "logged") || name == "chain" || name == "forest"
+	})
+}
+
+func runC04(t *testing.T, prop, partName string, use func(scenario string) bool) {
 	stT = t
 	depth := 6
 	if vh.Thorough() {
 		depth = 8
 	}
-	rep := vh.NewReport("C04", "stage predecessor histories (E-HIST)")
+	rep := vh.NewReport(prop, partName)
 	defer rep.Write()
 	var rc struct {
 		Scenario string    `json:"scenario"`
@@ -269,8 +283,13 @@ func TestC04(t *testing.T) {
 		}
 		return
 	}
+	n := 0
 	for _, sc := range c04Scenarios(vh.Thorough()) {
 		sc := sc
+		if !use(sc.Name) {
+			continue
+		}
+		n++
 		h := &vh.Hist[sAction]{
 			Rep:        rep,
 			Alphabet:   c04Alphabet(sc.Files, vh.Thorough()),
@@ -278,15 +297,13 @@ func TestC04(t *testing.T) {
 			MaxDepth:   depth,
 			ShardDepth: 2,
 			NonTrivial: simNonTrivial,
-			// with a cycle the cleaner releases the files in the order of a map iteration
-			MayDiverge: func([]sAction) bool { return strings.Contains(sc.Name, "cycle") },
 			Render: func(hist []sAction) interface{} {
 				return map[string]interface{}{"scenario": sc.Name, "history": hist}
 			},
 		}
 		h.Explore()
 	}
-	rep.Bound = fmt.Sprintf("all histories up to length %d, for each of %d predecessor structures (chain, forest, self reference + tail, 2-cycle + tail, predecessor known only from a log record 1 min / 25 h old, log holding only super-strings of the predecessor's name; thorough adds 3-cycle, 40-day-old record, chain of 4) over single-part files named a, a.b, xa (prefix / substring of one another): deliver a file (up to twice), deliver it corrupted, poll, clock +11 s / +31 min (periodic cleaner), CleanNow, orderly restart", depth, len(c04Scenarios(vh.Thorough())))
+	rep.Bound = fmt.Sprintf("all histories up to length %d, for each of %d predecessor structures (chain, forest, self reference + tail, 2-cycle + tail, predecessor known only from a log record 1 min / 25 h / 4 days old, log holding only super-strings of the predecessor's name; thorough adds 3-cycle, 40-day-old record, chain of 4) over single-part files named a, a.b, xa (prefix / substring of one another): deliver a file (up to twice), deliver it corrupted, poll, clock +11 s / +31 min (periodic cleaner), CleanNow, orderly restart", depth, n)
 }
 
 func c04Run(sc c04Scenario, hist []sAction) vh.HistResult {
